@@ -42,6 +42,7 @@ size_t rc_hmac(jwt_alg_t alg, const void *key, size_t keylen, const void *msg, s
 /* sign with the pool key's private half; sig is malloc'd raw JWS form (r||s fixed width for ES*). 0 on success */
 int rc_sign(const vk_t *k, jwt_alg_t alg, const void *msg, size_t n, unsigned char **sig, size_t *siglen);
 /* integer-level verification with the pool key's public half: 1 valid, 0 not */
+extern int rc_lenient_width;
 int rc_verify(const vk_t *k, jwt_alg_t alg, const void *msg, size_t n, const unsigned char *sig, size_t siglen);
 /* is (alg, key) inside the family / size rules of C02 + C09 (RSA >= 2048, EC size match, Ed25519/Ed448) */
 int rc_key_admissible(const vk_t *k, jwt_alg_t alg);
